@@ -16,7 +16,7 @@ SPEC = {
     "design_ref": "DESIGN.md section 5, C13",
     "rule": ("cases = targets (class, instance, options) chosen so that the minimum search needs 1, 2, 3 (and 4) main-loop solver invocations "
              "(gap between lower bound and optimum 0, 1, 2), plus every k-model, MinErrorFlow (+epsilon: two solves), MinSetCover, MinGenSet and "
-             "NumPathsOptimization with each stop rule; inside a case: the fault-free run, then every single-deviation plan "
+             "NumPathsOptimization with each stop rule, plus every k-model class with solve() called twice on one object; inside a case: the fault-free run, then every single-deviation plan "
              "(position x {kTimeLimit, kInterrupt, kUnknown, kSolutionLimit, kUnboundedOrInfeasible, kIterationLimit} x {solver ran, did not run} + custom-timeout flag), "
              "then (thorough) every two-deviation plan; non-trivial = distinct (target, plan) whose injected deviation was actually consumed by an invocation"),
     "assumptions": ["the library observes the solver only through SolverWrapper.optimize / get_model_status / value getters, so call granularity is complete",
@@ -133,6 +133,16 @@ def cases(tier, seed):
         cov += 1
         if cov >= 3:
             break
+    # solve() called twice on the same object (every k-model class): a deviation in the second run must leave the model unsolved
+    rs_dag = HAND_DAG[1][0]
+    for cls_, kw_ in (("kFlowDecomp", {"weight_type": "int", "k": 3, "optimization_options": {"optimize_with_greedy": False}}), ("kMinPathError", {"weight_type": "int", "k": 3}),
+                      ("kLeastAbsErrors", {"weight_type": "int", "k": 2}), ("kPathCover", {"k": 2})):
+        yield dict(rs_dag, target=cls_ + "/solve-twice", cls=cls_, kw=kw_, dev=dev, resolve=True)
+    for gap, insts in sorted(cyc.items()):
+        for inst in insts[:1]:
+            for cls_, kw_ in (("kFlowDecompCycles", {"weight_type": "int", "k": inst["opt"]}), ("kMinPathErrorCycles", {"weight_type": "int", "k": inst["opt"]}),
+                              ("kLeastAbsErrorsCycles", {"weight_type": "int", "k": 1}), ("kPathCoverCycles", {"k": inst["opt"]})):
+                yield dict(inst, target=cls_ + "/solve-twice", cls=cls_, kw=kw_, dev=dev, resolve=True)
     for nums, total in (([1, 2, 4], 7), ([1, 2, 3, 7], 13), ([3], 5), ([2, 5], 7)):
         yield {"target": "MinGenSet", "cls": "MinGenSet", "numbers": nums, "total": total, "dev": dev}
     yield {"target": "MinSetCover", "cls": "MinSetCover", "universe": [0, 1, 2], "subsets": [[0, 1], [1, 2], [0], [2]], "weights": [2, 2, 1, 1], "dev": dev}
@@ -166,6 +176,11 @@ def _execute(case, plan):
                         pass
             obs["pre_solve_returned"] = pre
             r = m.solve()
+            obs["calls_first_solve"] = len(inj.calls)
+            if case.get("resolve"):
+                # history extension: the same object is solved again; what counts is the LAST run ("the current model")
+                obs["first_solve"] = (bool(r), bool(m.is_solved()))
+                r = m.solve()
             obs["solve_ret"] = bool(r)
             obs["solved"] = bool(m.is_solved())
             if obs["solved"]:
@@ -283,6 +298,9 @@ def run(case):
                     if obs.get("inner_forced") or obs.get("inner_status") != "kOptimal":
                         viol.append({"kind": "numpaths_returned_unproven_model", "msg": f"{ctx}: returned model (k={obs.get('inner_k')}) has status {obs.get('inner_status')} / was the faulted run", "calls": obs["calls"]})
                         break
+                elif case.get("resolve") and n < obs.get("calls_first_solve", 0):
+                    # the deviation hit the first solve() only; the second, clean solve() legitimately proves optimality
+                    tags["resolve:first_run_faulted_second_clean"] += 1
                 else:
                     # single-solve models: a consumed deviation on their only / deciding invocation must not be 'solved'
                     viol.append({"kind": "solved_after_inconclusive_run", "msg": f"{ctx}: model reports solved although its solver run {n} ended inconclusive", "calls": obs["calls"]})
